@@ -148,16 +148,28 @@ def _array_len(an, st, o):
 
 
 def _range_index_ok(an, st, call):
-  """Index<Range*> on a fixed-size array: in range iff the bounds are provably within 0..=N"""
+  """Index<Range*> on a fixed-size array or on a slice whose symbolic length is tracked: in range iff the bounds are provably
+  within 0..=len"""
   if len(call.args) != 2:
     return False
   n = _array_len(an, st, call.args[0])
+  lk = None
   if n is None:
-    return False
+    rk, _ = _referent(an, st, call.args[0])
+    if rk is None:
+      return False
+    lk = (rk[0], rk[1] + ('#len',))
+    lv = st.m.get(lk)
+    n = lv[1] if is_int(lv) else 0  # the smallest possible length
   rty = an.op_ty(call.args[1]) or ''
   k = an.key_of_operand(st, call.args[1])
   if k is None:
     return False
+  if lk is not None and (rty.startswith('std::ops::RangeTo<') or rty.startswith('std::ops::RangeFrom<')):
+    # relational fact  bound < len  recorded by a dominating comparison
+    bk = (k[0], k[1] + ('0',))
+    if (st.root(bk), st.root(lk)) in st.lt or (st.root(bk), lk) in st.lt:
+      return True
 
   def fld(i):
     v = st.m.get((k[0], k[1] + (str(i),)))
@@ -390,6 +402,10 @@ def apply(an, st, call, bb):
     okf = False
     if dk == 'index-call' and _range_index_ok(an, st, call):
       okf = True
+    if (dk == 'iter-api' and last == 'step_by' or dk == 'slice-api' and last in ('chunks', 'chunks_exact', 'windows', 'rchunks')) and len(call.args) == 2:
+      sz = an.read(st, call.args[1])
+      if is_int(sz) and sz[1] >= 1:
+        okf = True  # these only panic on a zero step / chunk size
     if dk == 'unwrap' and call.args:
       k, _ = _referent(an, st, call.args[0])
       if k is not None and st.m.get((k[0], k[1] + ('always',))) == iv(1, 1):
@@ -537,7 +553,17 @@ def apply(an, st, call, bb):
     n = _array_len(an, st, call.args[0])
     if n is not None and last == 'len':
       return {'sub': {(): iv(n, n)}, 'pure': True}
-  # ---- lengths
+  # ---- lengths: one symbolic length per slice / Vec / String, kept at the pseudo-field '#len' of the referent, so that a guard
+  # on x.len() also bounds later bounds checks and range indexing on the same x
+  if last == 'len' and call.args and re.search(r'(slice::<impl \[T\]>|vec::Vec|str::<impl str>|string::String|VecDeque)::len$', name):
+    k, _ = _referent(an, st, call.args[0])
+    if k is not None:
+      lk = (k[0], k[1] + ('#len',))
+      cur = st.m.get(lk)
+      if cur is None:
+        cur = iv(0, ISIZE_MAX)
+        st.m[lk] = cur
+      return {'sub': {(): cur}, 'pure': True, 'copyof': lk}
   if re.search(r'(slice::<impl \[T\]>|vec::Vec|str::<impl str>|string::String|VecDeque|collections::\w+::\w+)::len$', name) or re.search(r'ExactSizeIterator(>|)::len$', name):
     return {'sub': {(): iv(0, ISIZE_MAX)}, 'pure': True}
   if last in ('is_empty', 'is_some', 'is_none', 'is_ok', 'is_err', 'contains', 'contains_key', 'starts_with', 'ends_with', 'is_ascii_digit', 'is_char_boundary') and dest_ty == 'bool':
